@@ -45,7 +45,7 @@ def run_one(rng, nd, cname, method, n, order, dim, gen_kind, full_output):
                 acc = acc + x[i] * x[i] * (i + 1.0) + x[0] * x[i]
             return acc
     kw = {'method': method, 'full_output': full_output}
-    if cname == 'Derivative':
+    if cname == 'Derivative' or (cname in ('Jacobian', 'Gradient') and n != 1):
         kw['n'] = n
     if cname != 'Hessian':
         kw['order'] = order
@@ -120,6 +120,7 @@ def run(ctx):
     grid = [('Derivative', m_, n_, o_, 1) for m_ in ('central', 'forward', 'backward', 'complex', 'multicomplex') for n_ in (1, 2, 3, 4) for o_ in (1, 2, 3, 4)
             if not (m_ == 'multicomplex' and n_ > 2)]
     grid += [(c_, 'complex', 1, o_, 2) for c_ in ('Jacobian', 'Gradient') for o_ in (1, 2, 3, 4)]
+    grid += [(c_, m_, 2, 2, 3) for c_ in ('Jacobian', 'Gradient') for m_ in ('central', 'forward', 'backward', 'complex')]
     for k in range(-len(grid), ctx.n(500, 5000)):
         cname = ['Derivative', 'Jacobian', 'Gradient', 'Hessdiag', 'Hessian'][k % 5]
         method = str(rng.choice(['central', 'forward', 'backward', 'complex', 'multicomplex'] + (['central2'] if cname == 'Hessian' else [])))
@@ -128,7 +129,8 @@ def run(ctx):
             dim = 2
         n = int(rng.integers(1, 7)) if method != 'multicomplex' else int(rng.integers(1, 3))
         if cname != 'Derivative':
-            n = 1 if cname in ('Jacobian', 'Gradient') else 2
+            # (Jacobian and Gradient accept n through their options; their stencil set covers n = 1 and the even rules of n = 2)
+            n = (int(rng.integers(1, 3)) if method != 'multicomplex' else 1) if cname in ('Jacobian', 'Gradient') else 2
         order = int(rng.integers(1, 9))
         gen_kind = str(rng.choice(['default', 'default', 'min', 'max', 'scalar']))
         if k < 0:
